@@ -138,6 +138,17 @@ def run_groups(chk, pid, groups, key_of, hang_in_scope=True, completion_required
             chk.inconclusive_case("reference run of this configuration is not reproducible (schedule-dependent output, "
                                   "C04's subject): differences cannot be attributed to the variants", base)
             continue
+        rres = ref[4]
+        if (ref_sig is None and not rres.timed_out and not (rres.res and rres.res.get("api_error") == 2)
+                and (enc.crashed(rres) or rres.res is None)):
+            # the configuration crashes the encoder without any variant applied: nothing can be compared, and the crash
+            # itself is C11's subject
+            chk.count(len(rs))
+            chk.bump("groups_whose_reference_crashed")
+            chk.inconclusive_case("the reference run of this configuration crashed (rc=%s): no output to compare the variants "
+                                  "with; crashes of the unmodified configuration are C11's subject [%s]"
+                                  % (rres.rc, common.feature_sig(base)), base)
+            continue
         group_ok = True
         nvar = 0
         for (g, vi, case, v, res, sig, prefix, extra) in rs:
